@@ -63,6 +63,16 @@ Checks(e, A2, P, T, prevwal, det2, lost1, deep2) ==
                ELSE IF deep2 THEN "-after-reorganisation-deeper-than-retention" ELSE ""
         c03 == IF IsPanic(e.res) THEN {} ELSE
                {Bad(e, "C03", x \o sfx) : x \in InconsistenciesT(A2, T, ~det2) \ (IF det2 THEN {"utxo"} ELSE {})}
+        \* known finding: re-winding the old chain puts the wallet's outputs of those blocks back on its list without
+        \* the expiry test, so outputs that had already left the retention window (the wallet had dropped them,
+        \* nobody can spend them) are listed again - the only change is such additions
+        expired == UNION {A2[x].outs : x \in {y \in DOMAIN A2 : T.tip # None /\ T.tip \in DOMAIN A2 /\ A2[y].height + G < A2[T.tip].height}}
+        relisted == /\ DOMAIN prevwal = DOMAIN e.wal /\ "unspent" \in DOMAIN e.wal
+                    /\ Rng(prevwal.unspent) \subseteq Rng(e.wal.unspent)
+                    /\ Rng(e.wal.unspent) # Rng(prevwal.unspent)
+                    /\ (Rng(e.wal.unspent) \ Rng(prevwal.unspent)) \subseteq expired
+                    /\ Rng(prevwal.slips) \subseteq Rng(e.wal.slips)
+                    /\ (Rng(e.wal.slips) \ Rng(prevwal.slips)) \subseteq expired
         c04 == (IF IsPanic(e.res)
                 THEN {Bad(e, "C04", IF PanicPossible(A2, P, b) THEN "panic-rewinding-a-purged-block"
                                     ELSE IF det2 THEN "panic-on-chain-without-known-ancestors" ELSE "panic")} ELSE {})
@@ -75,7 +85,8 @@ Checks(e, A2, P, T, prevwal, det2, lost1, deep2) ==
                               (IF T.stored # P.stored THEN "stored" ELSE ""))} ELSE {})
                \cup (IF ~Accepted(e.res) /\ ~IsPanic(e.res) /\ e.wal # prevwal
                      THEN {Bad(e, "C04", "rejected-block-changed-wallet" \o
-                                 (IF modelled THEN regime
+                                 (IF relisted THEN "-relisting-expired-outputs"
+                                  ELSE IF modelled THEN regime
                                   \* the inserted inputs may all be entries below the retention horizon,
                                   \* which the state comparison leaves out but the wallet lists
                                   ELSE IF det2 /\ T.utxo # P.utxo THEN "-on-chain-without-known-ancestors"
